@@ -440,6 +440,74 @@ pub fn run(ctx: &Ctx, rep: &mut Report) {
     let rc = (2..4usize, prop::collection::vec((wr_strategy(false), prop::bool::weighted(0.5)), 1..7), prop::collection::vec(prop_oneof![3 => Just(0u16), 1 => any::<u16>()], 0..50))
         .prop_map(|(n, ws, schedule)| RCase { n, writes: ws.iter().map(|w| w.0.clone()).collect(), settle: ws.iter().map(|w| w.1).collect(), schedule });
     crate::report::explore_with(ctx, rep, "replicated", n3, 150, rc, |c| run_repl(ctx, c));
+    // small scopes, exhaustively: every write sequence of length <=3 (quick) / <=4 (thorough) over a 14-letter alphabet
+    // on each kind of newer database, and every schedule with at most two pre-emptions of the 2-client programs over
+    // one key
+    if rep.failures.is_empty() {
+        let maxlen = if ctx.quick() { 3 } else { 4 };
+        crate::report::enumerate(ctx, rep, &format!("sequential-exhaustive-len<={}", maxlen), seq_all(maxlen).into_iter(), |c| run_seq(ctx, c));
+    }
+    if rep.failures.is_empty() {
+        let scheds = sched::bounded_schedules(if ctx.quick() { 12 } else { 20 }, 2);
+        let mut cases = vec![];
+        for db in ["created", "admin", "restored"] {
+            for p in small_programs() {
+                for s in scheds.iter() {
+                    cases.push(CCase { db: db.to_string(), clients: p.clone(), schedule: s.clone(), snapshot: false });
+                }
+            }
+        }
+        crate::report::enumerate(ctx, rep, "two-clients-all-schedules-with-at-most-2-preemptions", cases.into_iter(), |c| guard(ctx, c));
+    }
+}
+
+fn seq_alphabet() -> Vec<Wr> {
+    let mut a = vec![];
+    for k in 0..2usize {
+        a.push(Wr::Plain { k });
+        for delta in [-2, 0, 1] {
+            a.push(Wr::Versioned { k, delta });
+            a.push(Wr::Api { k, delta });
+        }
+    }
+    a
+}
+
+fn seq_all(maxlen: usize) -> Vec<Case> {
+    let alpha = seq_alphabet();
+    let mut out = vec![];
+    let mut level: Vec<Vec<Wr>> = vec![vec![]];
+    for _ in 0..maxlen {
+        let mut next = vec![];
+        for p in level.iter() {
+            for a in alpha.iter() {
+                let mut q = p.clone();
+                q.push(a.clone());
+                next.push(q);
+            }
+        }
+        for db in ["created", "admin", "restored"] {
+            for q in next.iter() {
+                out.push(Case { db: db.to_string(), writes: q.clone() });
+            }
+        }
+        level = next;
+    }
+    out
+}
+
+fn small_programs() -> Vec<Vec<Vec<Wr>>> {
+    let ops = vec![Wr::Plain { k: 0 }, Wr::Versioned { k: 0, delta: -1 }, Wr::Versioned { k: 0, delta: 0 }, Wr::Versioned { k: 0, delta: 1 }];
+    let mut out = vec![];
+    for a in ops.iter() {
+        for b in ops.iter() {
+            out.push(vec![vec![a.clone()], vec![b.clone()]]);
+            for c in ops.iter() {
+                out.push(vec![vec![a.clone(), c.clone()], vec![b.clone()]]);
+            }
+        }
+    }
+    out
 }
 
 pub fn replay(ctx: &Ctx, engine: &str, case: &J) -> Result<Option<(String, String)>, String> {
